@@ -11,6 +11,7 @@ import DDS.Proofs.GenDecodeWrap
 import DDS.Proofs.GenPagAdd
 import DDS.Proofs.Proto
 import DDS.Props.C04Pag
+import DDS.Proofs.Lift3
 
 set_option linter.unusedVariables false
 
@@ -333,5 +334,97 @@ theorem wrapEx_gen : Gen.DenseProto.DenseStore.ToProto 0 (toGen wrapEx)
 theorem wrapEx_model : (storeToProto (.d wrapEx)).map (·.contiguousOffset) = some (2 ^ 31) := by decide +kernel
 
 end dense
+
+/-! ### 2b. maps built by `binCounts[int32(index)] = count` -/
+
+section msets
+open DDS.GenSparse
+
+/-- the map after `binCounts[int32(index)] = count` for each bin of `l`, starting from `acc` -/
+def msetFrom (acc : GoMap Rat) (l : List (Int × Rat)) : GoMap Rat :=
+  l.foldl (fun m p => mset m (wrap32 p.1) p.2) acc
+
+theorem msetFrom_nil (acc : GoMap Rat) : msetFrom acc [] = acc := rfl
+theorem msetFrom_cons (acc : GoMap Rat) (p : Int × Rat) (l : List (Int × Rat)) :
+    msetFrom acc (p :: l) = msetFrom (mset acc (wrap32 p.1) p.2) l := rfl
+
+/-- writing distinct `int32` keys, in any order: the result is key-sorted and holds exactly the entries written -/
+theorem msetFrom_perm (l : List (Int × Rat)) (hk : ∀ p ∈ l, I32 p.1) : ∀ (acc : Content), acc.Sorted →
+    (keys (acc ++ l)).Nodup → Content.Sorted (msetFrom acc l) ∧ List.Perm (msetFrom acc l) (acc ++ l) := by
+  induction l with
+  | nil => intro acc hs _; exact ⟨hs, by simp [msetFrom_nil]⟩
+  | cons p rest ih =>
+    intro acc hs hnd
+    obtain ⟨k, v⟩ := p
+    rw [msetFrom_cons, wrap32_of_I32 k (hk (k, v) (List.mem_cons_self ..))]
+    have hk' : ∀ q ∈ acc, q.1 ≠ k := by
+      intro q hq hqk
+      unfold keys at hnd
+      rw [List.map_append, List.map_cons, List.nodup_append] at hnd
+      exact hnd.2.2 q.1 (List.mem_map.2 ⟨q, hq, rfl⟩) k (List.mem_cons_self ..) hqk
+    have hperm : (mset acc k v ++ rest).Perm (acc ++ (k, v) :: rest) :=
+      ((mset_perm acc k v hk').append_right rest).trans List.perm_middle.symm
+    obtain ⟨h2, h3⟩ := ih (fun q hq => hk q (List.mem_cons_of_mem _ hq)) (mset acc k v) (mset_sorted acc hs k v)
+      ((hperm.map Prod.fst).nodup_iff.2 hnd)
+    exact ⟨h2, h3.trans hperm⟩
+
+/-- the bins of a key-sorted content with `int32` keys, written in ANY order, give the content itself -/
+theorem msetFrom_of_perm (c : Content) (hs : c.Sorted) (hk : ∀ p ∈ c, I32 p.1) (l : List (Int × Rat))
+    (hp : l.Perm c) : msetFrom [] l = c := by
+  obtain ⟨h2, h3⟩ := msetFrom_perm l (fun p hp' => hk p (hp.mem_iff.1 hp')) [] trivial (by
+    rw [List.nil_append]
+    exact (hp.map Prod.fst).nodup_iff.2 (keys_nodup hs))
+  exact eq_of_perm_sorted (h3.trans (by rw [List.nil_append]; exact hp)) h2 hs
+
+end msets
+
+/-! ### 2c. the paginated store -/
+
+section pag
+open DDS.GenPag DDS.GenForEach DDS.Gen.PaginatedProto DDS.Gen.PaginatedIter
+
+/-- the message with sparse entries `m` only -/
+def sparseMsg (m : GoMap Rat) : GoPb.Store Rat :=
+  { BinCounts := m, ContiguousBinCounts := [], ContiguousBinIndexOffset := 0#32 }
+
+/-- MAIN (paginated `ToProto`; every store, capacity; NO invariant; fuel `forEachFuel s = len(buffer) + 1`): an empty
+    store gives the empty message and is returned untouched; otherwise the map holds `binCounts[int32(i)] = c` for
+    the model's bins in increasing order, and the store comes back with its buffer sorted -/
+theorem pag_toProto (s : PStore) (cap : Int) (fuel : Nat) (hf : forEachFuel s ≤ fuel) :
+    BufferedPaginatedStore.ToProto fuel (toGen s cap)
+      = if s.isEmpty then .ok (toGen s cap, emptyMsg)
+        else .ok (toGen s.sortRead cap, sparseMsg (msetFrom [] s.binsList)) := by
+  unfold BufferedPaginatedStore.ToProto
+  rw [isEmpty_spec, Res.bind_ok]
+  by_cases he : s.isEmpty = true
+  · rw [if_pos he, if_pos he]; rfl
+  · rw [if_neg he, if_neg he]
+    have h := pag_forEach_eq_visitS s cap ([] : GoMap Rat)
+      (fun st i c => .ok (mset st (wrap32 i) c, false)) fuel hf
+    have h' := visitS_total (fun (st : GoMap Rat) i c => mset st (wrap32 i) c) s.binsList []
+    rw [h'] at h
+    dsimp only
+    exact (congrArg (fun r => Res.bind r _) h).trans rfl
+
+/-- on a store whose bins are key-sorted with `int32` keys (true under `PStore.Inv`: `pag_side_of_inv`) the map is the
+    list of the model's bins, and the abstraction of the message is the model's `storeToProto` -/
+theorem pag_toProto_model (s : PStore) (cap : Int) (fuel : Nat) (hf : forEachFuel s ≤ fuel)
+    (hs : Content.Sorted s.binsList) (h32 : ∀ p ∈ s.binsList, I32 p.1) :
+    ∃ m, BufferedPaginatedStore.ToProto fuel (toGen s cap)
+        = .ok (toGen (if s.isEmpty then s else s.sortRead) cap, m) ∧
+      m = (if s.isEmpty then emptyMsg else sparseMsg s.binsList) ∧
+      some (pbOfGo m) = storeToProto (.pg s) := by
+  rw [pag_toProto s cap fuel hf, msetFrom_of_perm s.binsList hs h32 s.binsList (List.Perm.refl _)]
+  by_cases he : s.isEmpty = true
+  · simp only [he, if_true]
+    exact ⟨_, rfl, rfl, by simp only [storeToProto, he, if_true]; rfl⟩
+  · simp only [he, Bool.false_eq_true, if_false]
+    exact ⟨_, rfl, rfl, by simp only [storeToProto, he, Bool.false_eq_true, if_false]; rfl⟩
+
+theorem pag_side_of_inv (s : PStore) (h : PStore.Inv s) :
+    Content.Sorted s.binsList ∧ ∀ p ∈ s.binsList, I32 p.1 :=
+  ⟨(Props.C04Pag.content_wf s h).1, fun p hp => I32_of_Idx32 (Lift.pag_keys32 s h p hp)⟩
+
+end pag
 
 end DDS.GenProtoStore
